@@ -292,85 +292,9 @@ def rules(ctx):
     # ------------------------------------------------------------ R14.5
     coupled_group_instances(ctx, 'R14.5')
 
-    # ------------------------------------------------------------ R14.6
-    RESET_OK = {('PUBOMatrix.refresh', '__init__'), ('PUBOMatrix.refresh', 'clear'),
-                ('PUBOMatrix.clear', '__init__'), ('PUBOMatrix.clear', 'clear')}
-    # functions that write G1/G2/G3 wholesale in __init__ -> anything resolving to a model __init__
-    seen6 = set()
-    for recv in sorted(model_classes):
-        for K in P.cls(recv).mro:
-            if isinstance(K, str):
-                continue
-            for meth in K.methods.values():
-                if meth.name == '__init__' or meth.is_static or not meth.node.args.args:
-                    continue
-                selfn_ = meth.node.args.args[0].arg
-                for c in calls_in(meth.node):
-                    nm = call_name(c)
-                    if nm not in ('__init__', 'clear', 'refresh'):
-                        continue
-                    f = c.func
-                    on_self = False
-                    if isinstance(f, ast.Attribute):
-                        if is_name(f.value, selfn_):
-                            on_self = True
-                        elif isinstance(f.value, ast.Call) and is_name(f.value.func, 'super'):
-                            on_self = True
-                        elif c.args and is_name(c.args[0], selfn_):
-                            on_self = True     # K.__init__(self, ...)
-                    if not on_self:
-                        continue
-                    tg = R.resolve_call(c, meth, recv)
-                    for t, tr, how in tg:
-                        if not isinstance(t, FuncInfo):
-                            continue   # dict.clear etc.: removes terms only
-                        reaches_init = t.name == '__init__' or any(
-                            k[0].endswith('.__init__') for k in R.reachable_funcs(t, tr or recv))
-                        if not reaches_init:
-                            continue
-                        k6 = (meth.qual, src(c), t.qual)
-                        if k6 in seen6:
-                            continue
-                        seen6.add(k6)
-                        ok = (meth.qual, nm) in RESET_OK
-                        ctx.inst('R14.6', meth, c, ok,
-                                 "legitimate reset (%s in %s)" % (nm, meth.qual) if ok else
-                                 "%s[%s] calls %s on the live object, which re-runs %s and resets the "
-                                 "caches / ancilla counter while terms are kept or re-added"
-                                 % (meth.qual, recv, src(c.func), t.qual),
-                                 path=[meth.qual + '[%s]' % recv, t.qual])
-
-    # ------------------------------------------------------------ R14.7
-    rf = P.func('PUBOMatrix.refresh')
-    selfn_ = R.self_name(rf)
-    g = cfg_of(rf.node)
-    copies, clears, reinits = [], [], []
-    for n in g.stmts():
-        if isinstance(n, ast.Assign) and isinstance(n.value, ast.Call):
-            v = n.value
-            if (isinstance(v.func, ast.Attribute) and v.func.attr == 'copy' and is_name(v.func.value, selfn_)) or \
-               (src(v.func) in ('%s.__class__' % selfn_, 'type(%s)' % selfn_) and v.args and is_name(v.args[0], selfn_)):
-                copies.append(n)
-        for c in calls_in(n) if isinstance(n, ast.Expr) else []:
-            if call_name(c) == 'clear':
-                clears.append(n)
-            if call_name(c) == '__init__':
-                reinits.append((n, c))
-    ctx.inst('R14.7', rf, copies[0] if copies else 'copy', bool(copies),
-             "snapshot taken through the model's own class (keeps constraints / ancilla counter)" if copies else
-             "refresh does not snapshot the model through self.copy() / self.__class__(self): for PCBO/PCSO "
-             "the re-initialisation loses the recorded constraints and the ancilla counter")
-    ok = bool(copies) and bool(clears) and all(g.dominates(copies, c) for c in clears)
-    ctx.inst('R14.7', rf, clears[0] if clears else 'clear', ok,
-             "copy dominates the clear" if ok else "terms are cleared before the snapshot is taken")
-    okr = False
-    if copies and reinits:
-        cname = src(copies[0].targets[0])
-        okr = any(c.args and src(c.args[-1]) == cname for _, c in reinits) and \
-            all(g.dominates([x for x in clears], n) for n, _ in reinits)
-    ctx.inst('R14.7', rf, reinits[0][0] if reinits else '__init__', okr,
-             "re-initialised from the snapshot after the clear" if okr else
-             "re-initialisation does not take the snapshot as its argument / precedes the clear")
+    # ------------------------------------------------------------ R14.6 / R14.7
+    reset_reachability(ctx, 'R14.6')
+    refresh_order(ctx, 'R14.7')
 
     # ------------------------------------------------------------ R14.8
     CTOR_OR_HANDOFF = {'BO.__init__', 'PCBO.__init__', '_pcso._empty_pcbo', '_info.create_from_info'} | \
@@ -461,3 +385,94 @@ def coupled_group_instances(ctx, rid, only=None):
         else:
             ctx.inst(rid, ('qubovert', ''), 'no foreign-object assignment of coupled caches', True,
                      "nothing to check", nontrivial=False)
+
+
+def reset_reachability(ctx, rid):
+    """R14.6: __init__ re-run on a live model only by clear/refresh."""
+    P, R = ctx.prog, ctx.res
+    model_classes = {c.name for c in P.subclasses_of('DictArithmetic')}
+    # ------------------------------------------------------------ R14.6
+    RESET_OK = {('PUBOMatrix.refresh', '__init__'), ('PUBOMatrix.refresh', 'clear'),
+                ('PUBOMatrix.clear', '__init__'), ('PUBOMatrix.clear', 'clear')}
+    # functions that write G1/G2/G3 wholesale in __init__ -> anything resolving to a model __init__
+    seen6 = set()
+    for recv in sorted(model_classes):
+        for K in P.cls(recv).mro:
+            if isinstance(K, str):
+                continue
+            for meth in K.methods.values():
+                if meth.name == '__init__' or meth.is_static or not meth.node.args.args:
+                    continue
+                selfn_ = meth.node.args.args[0].arg
+                for c in calls_in(meth.node):
+                    nm = call_name(c)
+                    if nm not in ('__init__', 'clear', 'refresh'):
+                        continue
+                    f = c.func
+                    on_self = False
+                    if isinstance(f, ast.Attribute):
+                        if is_name(f.value, selfn_):
+                            on_self = True
+                        elif isinstance(f.value, ast.Call) and is_name(f.value.func, 'super'):
+                            on_self = True
+                        elif c.args and is_name(c.args[0], selfn_):
+                            on_self = True     # K.__init__(self, ...)
+                    if not on_self:
+                        continue
+                    tg = R.resolve_call(c, meth, recv)
+                    for t, tr, how in tg:
+                        if not isinstance(t, FuncInfo):
+                            continue   # dict.clear etc.: removes terms only
+                        reaches_init = t.name == '__init__' or any(
+                            k[0].endswith('.__init__') for k in R.reachable_funcs(t, tr or recv))
+                        if not reaches_init:
+                            continue
+                        k6 = (meth.qual, src(c), t.qual)
+                        if k6 in seen6:
+                            continue
+                        seen6.add(k6)
+                        ok = (meth.qual, nm) in RESET_OK
+                        ctx.inst(rid, meth, c, ok,
+                                 "legitimate reset (%s in %s)" % (nm, meth.qual) if ok else
+                                 "%s[%s] calls %s on the live object, which re-runs %s and resets the "
+                                 "caches / ancilla counter while terms are kept or re-added"
+                                 % (meth.qual, recv, src(c.func), t.qual),
+                                 path=[meth.qual + '[%s]' % recv, t.qual])
+
+
+
+def refresh_order(ctx, rid):
+    """R14.7: refresh snapshots through the model's class, then clears, then re-initialises."""
+    P, R = ctx.prog, ctx.res
+    # ------------------------------------------------------------ R14.7
+    rf = P.func('PUBOMatrix.refresh')
+    selfn_ = R.self_name(rf)
+    g = cfg_of(rf.node)
+    copies, clears, reinits = [], [], []
+    for n in g.stmts():
+        if isinstance(n, ast.Assign) and isinstance(n.value, ast.Call):
+            v = n.value
+            if (isinstance(v.func, ast.Attribute) and v.func.attr == 'copy' and is_name(v.func.value, selfn_)) or \
+               (src(v.func) in ('%s.__class__' % selfn_, 'type(%s)' % selfn_) and v.args and is_name(v.args[0], selfn_)):
+                copies.append(n)
+        for c in calls_in(n) if isinstance(n, ast.Expr) else []:
+            if call_name(c) == 'clear':
+                clears.append(n)
+            if call_name(c) == '__init__':
+                reinits.append((n, c))
+    ctx.inst(rid, rf, copies[0] if copies else 'copy', bool(copies),
+             "snapshot taken through the model's own class (keeps constraints / ancilla counter)" if copies else
+             "refresh does not snapshot the model through self.copy() / self.__class__(self): for PCBO/PCSO "
+             "the re-initialisation loses the recorded constraints and the ancilla counter")
+    ok = bool(copies) and bool(clears) and all(g.dominates(copies, c) for c in clears)
+    ctx.inst(rid, rf, clears[0] if clears else 'clear', ok,
+             "copy dominates the clear" if ok else "terms are cleared before the snapshot is taken")
+    okr = False
+    if copies and reinits:
+        cname = src(copies[0].targets[0])
+        okr = any(c.args and src(c.args[-1]) == cname for _, c in reinits) and \
+            all(g.dominates([x for x in clears], n) for n, _ in reinits)
+    ctx.inst(rid, rf, reinits[0][0] if reinits else '__init__', okr,
+             "re-initialised from the snapshot after the clear" if okr else
+             "re-initialisation does not take the snapshot as its argument / precedes the clear")
+
